@@ -278,6 +278,14 @@ def special_vals(c, rnd):
         return [float_to_bits(bits_to_float(v, 32), 64) for v in SPECIAL_F32 if bits_to_float(v, 32) == bits_to_float(v, 32)] + [0x7ff8000000000000, 1, 0x000fffffffffffff, 0x4330000000000000, 0x4340000000000000, 0x3fdfffffffffffff]
     m = (1 << w) - 1
     return [0, 1, 2, 3, m, m - 1, 1 << (w - 1), (1 << (w - 1)) - 1, (1 << (w - 1)) + 1, 0x55555555 & m, 0xAAAAAAAAAAAAAAAA & m, 7, 8, 0x80 & m, 0x7f]
+def boundary_vals(c):
+    """integers: 2^k - 1, 2^k, 2^k + 1 for every k; floats: the special values"""
+    k, w, _ = CT[c]
+    if k in 'bf': return special_vals(c, None)
+    m = (1 << w) - 1; out = []
+    for e in range(w):
+        out += [((1 << e) - 1) & m, (1 << e) & m, ((1 << e) + 1) & m, (-(1 << e)) & m]
+    return sorted(set(out))
 def sample_inputs(fn, rnd, k):
     """k input tuples mixing special and random values"""
     res = []
@@ -787,6 +795,28 @@ class Session:
             info['native_verdicts'] = verdicts
             if all(v == 'violated' for v in verdicts.values()): return 'reproduced', info
             if any(v == 'violated' for v in verdicts.values()): return 'reproduced', info
+            # the solver's model did not reproduce (typically: it interprets an uninterpreted libm function freely).  The obligation is NOT proved; look for a native
+            # witness among boundary inputs (2^k-1, 2^k, 2^k+1, special floats) that satisfy the precondition - only a natively violated atom is reported
+            try:
+                rnd = random.Random(12345); tried = 0
+                pools = [boundary_vals(c) for (c, n) in fn.ins]
+                while tried < 400:
+                    tried += 1
+                    cand = [[rnd.choice(pool) for _ in range(n)] for (c, n), pool in zip(fn.ins, pools)]
+                    cin = concretize(fn.ins, cand); cin_t = [[x.bits if isinstance(x, FV) else x for x in r] for r in cin]
+                    if pre_fn is not None:
+                        p_ = pre_fn(cin_t); p_ = p_ if isinstance(p_, (list, tuple)) else [p_]
+                        if not all(z3.is_true(z3.simplify(h)) for h in p_): continue
+                    nat = unit.call_native(fname, cand)
+                    goals = spec_fn[0](cin_t, concretize(fn.outs, nat))
+                    if not isinstance(goals, (list, tuple)): goals = [('spec', goals)]
+                    g = dict(goals).get(spec_fn[1])
+                    if g is not None and z3.is_false(z3.simplify(g)):
+                        info['inputs'] = [[hex(v) for v in r] for r in cand]; info['native_out_g++'] = [[hex(v) for v in r] for r in nat]
+                        info['witness'] = 'found among boundary inputs after the solver model did not reproduce'
+                        return 'reproduced', info
+            except Exception as e:
+                info['boundary_search_error'] = str(e)[:200]
             return 'not-reproduced', info
         return replay
 
